@@ -277,7 +277,7 @@ class GPTNeoXKFACEigenLayer(KFACEigenLayer):
                 torch.zeros_like(grad_partition)
                 for _ in range(get_world_size(self.model_parallel_group))
             ]
-            if self.parallelism == 'output':
+            if self.module.has_bias() and self.parallelism == 'output':
                 bias_grads = [
                     torch.zeros_like(bias_grad_partition)
                     for _ in range(get_world_size(self.model_parallel_group))
